@@ -54,3 +54,63 @@ Definition resumecc (m : vm) (saved : list word) : option vm :=
       let t2 := t1 - 4 in
       Some (mkVM (sset s1 (t2 - 1) tmp1) t2 fp' self' ip')
   end.
+
+(** ------------------------------------------------------------------ the growth path (round 3)
+    sexp_grow_stack (vm.c:861-885): new_size = max (2*size) min_size, capped by [maxs] = SEXP_MAX_STACK_SIZE (fails when
+    the stack already has the maximal size or min_size exceeds it); a NEW stack object is allocated, words 0..top+1 are
+    copied, the rest is whatever the allocator left there ([junk]: any list, only its first words are used).
+    The context's stack pointer is updated; C locals pointing into the old object are NOT. *)
+Definition grow_size (size min_size maxs : nat) : option nat :=
+  let n0 := if Nat.ltb (size * 2) min_size then min_size else size * 2 in
+  if Nat.ltb maxs n0 then
+    (if orb (Nat.eqb size maxs) (Nat.ltb maxs min_size) then None else Some maxs)
+  else Some n0.
+
+Definition grow_stack (s : list word) (t min_size maxs : nat) (junk : list word) : option (list word) :=
+  match grow_size (length s) min_size maxs with
+  | None => None
+  | Some n => let keep := firstn (t + 2) s in
+              Some (keep ++ firstn (n - length keep) (junk ++ repeat (WFix 0) n))
+  end.
+
+(** sexp_restore_stack (vm.c:900-913) with its growth branch: returns (stack object of the context afterwards, top,
+    grown?) or None = the out-of-stack error *)
+Definition restore_stack_g (s : list word) (t : nat) (saved : list word) (maxs : nat) (junk : list word)
+  : option (list word * nat * bool) :=
+  let len := length saved in
+  if Nat.leb (length s) (len + 64) then
+    match grow_stack s t (len + 64) maxs junk with
+    | None => None
+    | Some s' => Some (saved ++ skipn len s', len, true)
+    end
+  else Some (saved ++ skipn len s, len, false).
+
+(** SEXP_OP_RESUMECC as REPAIRED by fixes/C06-resumecc-reload-stack-after-growth.patch: the C local [stack] is
+    re-read from the context after sexp_restore_stack, so _ARG1.._ARG3 are words of the stack that was restored *)
+Definition resumecc_g (m : vm) (saved : list word) (maxs : nat) (junk : list word) : option vm :=
+  let tmp1 := sref (stack m) (fp m - 1) in
+  match restore_stack_g (stack m) (top m) saved maxs junk with
+  | None => None
+  | Some (s1, t1, _) =>
+      let fp' := unfix (sref s1 (t1 - 1)) in
+      let self' := sref s1 (t1 - 2) in
+      let ip' := unfix (sref s1 (t1 - 3)) in
+      let t2 := t1 - 4 in
+      Some (mkVM (sset s1 (t2 - 1) tmp1) t2 fp' self' ip')
+  end.
+
+(** SEXP_OP_RESUMECC as PINNED (vm.c:1320-1333 before the repair): after a growth the local [stack] still points to the
+    OLD stack object: _ARG1.._ARG3 are read from it (beyond its end: [sref] gives the default word, the C code reads
+    whatever lies behind the object) and `_ARG1 = tmp1` is written into it; the context continues on the new object *)
+Definition resumecc_stale (m : vm) (saved : list word) (maxs : nat) (junk : list word) : option vm :=
+  let tmp1 := sref (stack m) (fp m - 1) in
+  match restore_stack_g (stack m) (top m) saved maxs junk with
+  | None => None
+  | Some (s1, t1, grown) =>
+      let rd := if grown then stack m else s1 in
+      let fp' := unfix (sref rd (t1 - 1)) in
+      let self' := sref rd (t1 - 2) in
+      let ip' := unfix (sref rd (t1 - 3)) in
+      let t2 := t1 - 4 in
+      Some (mkVM (if grown then s1 else sset s1 (t2 - 1) tmp1) t2 fp' self' ip')
+  end.
